@@ -34,6 +34,12 @@ def query_harness(name, n, perm_mode, top_kinds, edits):
         sched = GPure(*jobs) if kind == "pure" else GSched("S", 0, *jobs)
         edit = edits[api.choice("edit", len(edits))]
         members = list(jobs)
+        if edit != "none" and api.flag("query_before_edit"):
+            # the queries are asked once before the edit as well: cached reverse links must not go stale
+            for j in jobs:
+                list(sched.successors(j))
+            sched.successors_downstream(*jobs[:1])
+            list(sched.exit_jobs())
         if edit == "remove-edge":
             pairs = [(a, b) for i, a in enumerate(jobs) for b in jobs[i + 1:]]
             a, b = pairs[api.choice("which", len(pairs))]
@@ -41,6 +47,18 @@ def query_harness(name, n, perm_mode, top_kinds, edits):
                 b.requires(a, remove=True)
             else:
                 b.requires(a)
+        elif edit == "move-edge":
+            # same number of jobs and of links before and after
+            cands = [(k, r) for k in range(n) for r in range(k) if jobs[r] in jobs[k].required]
+            if not cands:
+                api.assume(False)
+            k, r = cands[api.choice("which", len(cands))]
+            others = [x for x in range(k) if jobs[x] not in jobs[k].required]
+            if not others:
+                api.assume(False)
+            x = others[api.choice("to", len(others))]
+            jobs[k].requires(jobs[r], remove=True)
+            jobs[k].requires(jobs[x])
         elif edit == "remove-job":
             k = api.choice("which", n)
             sched.remove(jobs[k])
@@ -138,9 +156,9 @@ def iterate_harness(name):
 
 def harnesses(tier):
     if tier == "quick":
-        return [query_harness("dag4", 4, "two", ["pure", "sched"], ["none", "remove-edge", "remove-job", "add-job"]),
+        return [query_harness("dag4", 4, "two", ["pure", "sched"], ["none", "remove-edge", "move-edge", "remove-job", "add-job"]),
                 iterate_harness("iterate-jobs")]
     return [query_harness("dag5", 5, "two", ["pure"], ["none", "remove-job"]),
             query_harness("dag4-all-orders", 4, "free", ["pure", "sched"],
-                          ["none", "remove-edge", "remove-job", "add-job"]),
+                          ["none", "remove-edge", "move-edge", "remove-job", "add-job"]),
             iterate_harness("iterate-jobs")]
